@@ -6,12 +6,65 @@ import copy
 import itertools
 import json
 import warnings
+import ast
 
 IGNORABLE = {'metadata', 'name_mapper', 'hierarchy_mapper'}
 
 
 def _skey(x):
     return (0, x) if isinstance(x, str) else (1, repr(x))
+
+
+def extract_validator_constants(path):
+    """(ignorable_keys or None, has_repeated_child_test,
+    has_no_children_test, recognised)"""
+    src = open(path).read()
+    mod = ast.parse(src)
+    fn = None
+    for node in ast.walk(mod):
+        if isinstance(node, ast.FunctionDef) and node.name == 'validate_taxonomy_tree':
+            fn = node
+    if fn is None:
+        return None, False, False, False
+    keys = None
+    for node in ast.walk(fn):
+        if isinstance(node, ast.Assign) and len(node.targets) == 1 and \
+                isinstance(node.targets[0], ast.Name) and node.targets[0].id == 'bad_keys' and \
+                isinstance(node.value, ast.Set) and \
+                all(isinstance(e, ast.Constant) and isinstance(e.value, str) for e in node.value.elts):
+            keys = sorted(e.value for e in node.value.elts)
+    # the keys must be used as `set(taxonomy_tree.keys()) - bad_keys`
+    uses = any(isinstance(n, ast.BinOp) and isinstance(n.op, ast.Sub) and
+               isinstance(n.right, ast.Name) and n.right.id == 'bad_keys'
+               for n in ast.walk(fn))
+    # repeated-child test: a `raise` under `if len(set(x)) != len(x)` inside a
+    # loop over hierarchy[:-1]
+    strict = False
+    nochild = False
+    for loop in ast.walk(fn):
+        if not isinstance(loop, ast.For):
+            continue
+        it = loop.iter
+        if not (isinstance(it, ast.Subscript) and isinstance(it.value, ast.Name)
+                and it.value.id == 'hierarchy' and isinstance(it.slice, ast.Slice)
+                and it.slice.lower is None and isinstance(it.slice.upper, ast.UnaryOp)
+                and isinstance(it.slice.upper.op, ast.USub)
+                and isinstance(it.slice.upper.operand, ast.Constant)
+                and it.slice.upper.operand.value == 1):
+            continue
+        for n in ast.walk(loop):
+            if isinstance(n, ast.If) and isinstance(n.test, ast.Compare) and \
+                    len(n.test.ops) == 1 and isinstance(n.test.ops[0], ast.NotEq) and \
+                    'len(set(' in ast.unparse(n.test) and \
+                    any(isinstance(b, ast.Raise) for b in n.body):
+                strict = True
+            if isinstance(n, ast.If) and isinstance(n.test, ast.Compare) and \
+                    len(n.test.ops) == 1 and isinstance(n.test.ops[0], ast.Eq) and \
+                    ast.unparse(n.test).replace(' ', '') in (
+                        'len(child_list)==0',) and \
+                    any(isinstance(b, ast.Raise) for b in n.body):
+                nochild = True
+    return keys, strict, nochild, (keys is not None and uses)
 
 
 class TreeCanon(object):
@@ -90,6 +143,7 @@ ERR_PATTERNS = [
     ('has no parent at level', 'orphan'),
     ('is not present in the keys at', 'missingChild'),
     ('has at least two parents', 'twoParents'),
+    ('has no children', 'noChildren'),
     ('more than once as a child', 'repeatedChild'),
     ('Some rows appear more than once', 'dupRows'),
     ('It is flat', 'flatTree'),
@@ -359,10 +413,45 @@ def extra_malformed_variants(rng, tree):
                         new[k] = v
                 t[pl] = new
                 out.append(('two_parents', t))
-        # a top-level node without children (accepted: nothing requires children)
+        # (a) a non-leaf node whose child list is emptied: its former
+        #     children become orphans
+        j = rng.randrange(len(h) - 1)
+        cand = [p for p in tree[h[j]] if len(tree[h[j]][p]) > 0]
+        if cand:
+            t = cp()
+            t[h[j]][rng.choice(cand)] = []
+            out.append(('childless_parent', t))
+        # (b) an extra node without children at a non-leaf level (listed by
+        #     a parent of the level above, so that it is no orphan)
         t = cp()
-        t[h[0]]['lonely_top'] = []
-        out.append(('childless_top_valid', t))
+        t[h[j]]['lonely_zz'] = []
+        if j > 0:
+            ups = list(t[h[j - 1]].keys())
+            if ups:
+                pp = rng.choice(ups)
+                t[h[j - 1]][pp] = list(t[h[j - 1]][pp]) + ['lonely_zz']
+        out.append(('childless_node', t))
+        # (c) childless AND repeated child in the same level: the first
+        #     offending parent in dict order decides the error class
+        pl0 = h[j]
+        ps0 = [p for p in tree[pl0] if len(tree[pl0][p]) > 0]
+        if ps0:
+            t = cp()
+            p0 = rng.choice(ps0)
+            t[pl0][p0] = list(t[pl0][p0]) + [t[pl0][p0][0]]
+            new = {}
+            if rng.random() < 0.5:
+                new['lonely_zz'] = []
+            for k, v in t[pl0].items():
+                new[k] = v
+            new.setdefault('lonely_zz', [])
+            t[pl0] = new
+            if j > 0:
+                ups = list(t[h[j - 1]].keys())
+                if ups:
+                    pp = rng.choice(ups)
+                    t[h[j - 1]][pp] = list(t[h[j - 1]][pp]) + ['lonely_zz']
+            out.append(('childless_and_repeated', t))
     # ignorable keys
     t = cp()
     t['name_mapper'] = {}
@@ -443,7 +532,16 @@ def all_one_edit_variants(tree):
                 t = cp()
                 t[leaf][b] = list(t[leaf][b]) + [r]
                 out.append(('dup_row', t))
-    if len(h) > 1:
-        t = cp(); t[h[0]]['lonely_top'] = []
-        out.append(('childless_top_valid', t))
+    for i in range(len(h) - 1):
+        for p in tree[h[i]]:
+            t = cp(); t[h[i]][p] = []
+            out.append(('childless_parent', t))
+        t = cp(); t[h[i]]['lonely_zz'] = []
+        if i > 0:
+            for pp in tree[h[i - 1]]:
+                t2 = copy.deepcopy(t)
+                t2[h[i - 1]][pp] = list(t2[h[i - 1]][pp]) + ['lonely_zz']
+                out.append(('childless_node', t2))
+        else:
+            out.append(('childless_node', t))
     return out
